@@ -264,13 +264,22 @@ def large_case(ctx, idx, rng):
     spectrum = str(rng.choice(SPECTRA))
     start = str(rng.choice(['generic', 'real', 'invariant-rotated']))
     A, v = kr.make_case(rng, n, cplx, spectrum, start)
+    if idx % 5 == 2:
+        # LONG runs: 70 .. 110 iterations on a REAL problem of dimension 160 with an isolated lowest level (a Ritz value that converges early): anything that
+        # re-orthogonalises against a window / a block of recent vectors only, ghost Ritz pairs
+        n, m, cplx, spectrum, start = 160, int(rng.integers(70, 111)), False, 'isolated-lowest-level', 'real'
+        Qr = np.linalg.qr(rng.normal(size=(n, n)))[0]
+        lam_ = np.concatenate([[-float(rng.uniform(5, 60))], rng.uniform(0, 1, size=n - 1)])
+        A = (Qr * lam_) @ Qr.T
+        A = (A + A.T) / 2
+        v = rng.normal(size=n)
     A = A / max(1.0, np.linalg.norm(A, 2) / 3)
     res = kr.krylov_residuals(A, v, m + 1)
     kd = kr.krylov_dim(res)
     if any(1e-8 <= r <= 1e-5 for r in res[:m]):
         kd = 10**9
     dt = 1j * float(rng.choice([-1, 1])) * long_dt(rng)
-    ctx.case(('hermitian', 'large-n', 'exhausted' if m >= kd else 'not-exhausted', spectrum, start), sample={'n': n, 'm': m, 'spectrum': spectrum, 'start': start})
+    ctx.case(('hermitian', 'large-n' if n < 160 else 'n160-long-run', 'exhausted' if m >= kd else 'not-exhausted', spectrum, start), sample={'n': n, 'm': m, 'spectrum': spectrum, 'start': start})
     check_eigh(ctx, A, v, m, kd)
     check_expm(ctx, A, v, dt, m, kd, hermitian=True)
 
